@@ -32,6 +32,9 @@ use crate::fw::{replay_case, run_prop, Ctx, Fail, PropSpec, Report, Stats, Verdi
 use crate::{ensure, fail};
 
 pub const DAEMON: &str = "/verif/.target-daemon/debug/quandaryd";
+#[path = "c31r.rs"]
+pub mod race;
+
 const WORK: &str = "/verif/.work/c31";
 
 const UNIVERSE: [&str; 5] = ["z0.test.", "a.z0.test.", "b.a.z0.test.", "z1.test.", "a.z1.test."];
@@ -698,11 +701,16 @@ pub fn run(ctx: &Ctx, report: &mut Report) {
     let _ = fs::create_dir_all(WORK);
     let cases = ctx.tier.pick(320, 8000);
     run_prop(ctx, report, PropSpec { name: "reload-history", cases, max_shrink_iters: 200 }, case_strategy, oracle);
+    // a zone file replaced while the daemon is loading it (see c31r.rs)
+    run_prop(ctx, report, PropSpec { name: "reload-race", cases: ctx.tier.pick(48, 800), max_shrink_iters: 12 }, race::race_case, race::oracle_race);
     let _ = fs::remove_dir_all(format!("{WORK}"));
 }
 
-pub fn replay(_check: &str, case: &serde_json::Value) -> Verdict {
+pub fn replay(check: &str, case: &serde_json::Value) -> Verdict {
     let _ = fs::create_dir_all(WORK);
+    if check == "reload-race" {
+        return replay_case::<race::RaceCase, _>(case, race::oracle_race);
+    }
     replay_case::<Case, _>(case, oracle)
 }
 
